@@ -207,9 +207,19 @@ class RngStub:
         return v
 
     def integers(self, low, high=None):
-        # a derived sub-seed: deterministic function of (seed, k)
-        self.count += 1
-        return ("sub", self.seed, self.count)
+        # a derived sub-seed: an int that is a deterministic, injective-in-
+        # practice function of (seed, k); unseeded generators give a value
+        # that is new in every execution
+        import zlib
+        w = self.world
+        if self.seed is None:
+            w.fresh += 1
+            ident = ("freshint", w.run_id, w.fresh)
+        else:
+            self.count += 1
+            ident = ("sub", int(self.seed), self.count)
+        top = (int(low) if high is None else int(high)) - 1
+        return 1 + zlib.crc32(repr(ident).encode()) % max(1, top - 1)
 
     def permutation(self, x):
         raise alg.Unsupported("rng.permutation")
